@@ -191,7 +191,7 @@ structure Quiet (E : Env S Unit π) (H0 : NT S Unit → List (π × Prog)) (s : 
   tinv : TInv E H0 s
   cinv : CInv E s
   i3 : I3 E s
-  started : ∀ nt rs, AList.lookup nt E.G.rules = some rs → s.succOf nt ≠ []
+  started : HeapStarted s
   init_seen : ∀ nt F ra, E.G.rule? nt F = some (ra, ()) →
     ∃ ms, Tree.node F ms ∈ s.seenOf nt ∧
       ∀ (i : Nat) a m, ra[i]? = some a → ms[i]? = some m → FP E H0 (argNT a) m
@@ -286,7 +286,6 @@ theorem TupleDepth.pred {s : St S Unit π} {ra : List (Ty × S)} {args : List Pr
 structure FrHyp (E : Env S Unit π) (rank : NT S Unit → Nat) (Good : π → Prop) : Prop where
   law : Law E rank Good
   wtotal : WTotal E
-  closed : Closed E.G
   subok : SubOK E
 
 /-- a tuple of popped arguments whose program passes the threshold: the program was added to
@@ -469,20 +468,17 @@ theorem frontier {E : Env S Unit π} {rank} {Good} (H : FrHyp E rank Good) {H0} 
             rw [hpx] at hpk'; cases hpk'
             exact L.weak.irrefl (L.good _ _ _ hpx)
           · -- not popped yet: use the last popped program of the argument's non-terminal
-            have hrow := H.closed nt F ra hr _ (List.mem_of_getElem? ha)
-            cases hl : AList.lookup (argNT ra[j]) E.G.rules with
-            | none => rw [hl] at hrow; cases hrow
-            | some rs =>
-              obtain ⟨kt, t, hkt, htip⟩ := Q.tinv.tip _ (Q.started _ rs hl)
-              refine ⟨t, ?_⟩
-              intro a k ha' hk'
-              rw [ha] at ha'; cases ha'
-              rw [hk] at hk'; cases hk'
-              refine ⟨⟨kt, hkt⟩, ?_, Or.inr ⟨htip, by intro hh; rw [hh] at he; cases he⟩⟩
-              intro px pk' hpx hpk'
-              rw [hpk] at hpk'; cases hpk'
-              have hb := Q.full.oinv.below _ e he kt t px hkt hpx
-              exact L.weak.ntrans (L.good _ _ _ hpx) (L.good _ _ _ (Q.full.sinv.heap_prio _ e he)) (L.good _ _ _ hpk) hb hle
+            have hne : s.heapOf (argNT ra[j]) ≠ [] := by intro hh; rw [hh] at he; cases he
+            obtain ⟨kt, t, hkt, htip⟩ := Q.tinv.tip _ (Q.started _ hne)
+            refine ⟨t, ?_⟩
+            intro a k ha' hk'
+            rw [ha] at ha'; cases ha'
+            rw [hk] at hk'; cases hk'
+            refine ⟨⟨kt, hkt⟩, ?_, Or.inr ⟨htip, hne⟩⟩
+            intro px pk' hpx hpk'
+            rw [hpk] at hpk'; cases hpk'
+            have hb := Q.full.oinv.below _ e he kt t px hkt hpx
+            exact L.weak.ntrans (L.good _ _ _ hpx) (L.good _ _ _ (Q.full.sinv.heap_prio _ e he)) (L.good _ _ _ hpk) hb hle
       obtain ⟨as', hlen', hR⟩ := exists_list_of_forall ra.length hpos
       -- facts about the chosen tuple
       have hget : ∀ (j : Nat) x, as'[j]? = some x → ∃ a k, ra[j]? = some a ∧ kids[j]? = some k := by
